@@ -129,6 +129,8 @@ class ethernet(packet_base):
 
   @staticmethod
   def parse_next (prev, typelen, raw, offset=0, allow_llc=True):
+    if prev is not None and prev._nesting() + 1 >= packet_base.MAX_NESTING:
+      return raw[offset:] # Nested too deeply; keep the rest as bytes
     parser = ethernet.type_parsers.get(typelen)
     if parser is not None:
       return parser(raw[offset:], prev)
